@@ -14,6 +14,11 @@ inline void run_isolated(const std::string& op, const Args& a, int timeout_s = 3
   pid_t pid = fork();
   if (pid == 0) {
     close(fd[0]); dup2(fd[1], 2); close(fd[1]);
+    // the child must not write a #CRASH marker into the shared protocol stream: its death is reported by the parent
+#if defined(__SANITIZE_ADDRESS__) || defined(__SANITIZE_THREAD__)
+    __sanitizer_set_death_callback(+[] {});
+#endif
+    std::signal(SIGABRT, SIG_DFL);
     alarm(unsigned(timeout_s));
     run(op, a);
     std::fflush(stdout);
